@@ -113,11 +113,14 @@ def proof_stage(pid, module, theorems, tier):
 
 # ------------------------------------------------------------------ known findings
 def load_known(pid):
-    path = os.path.join(VERIF, "known_findings.json")
-    if not os.path.exists(path):
-        return []
-    data = json.load(open(path))
-    return [e for e in data.get("findings", []) if e.get("property") == pid and e.get("status") == "open"]
+    out = []
+    paths = [os.path.join(VERIF, "known_findings.json")] + sorted(glob.glob(os.path.join(VERIF, "known_findings.d", "*.json")))
+    for path in paths:
+        if not os.path.exists(path):
+            continue
+        data = json.load(open(path))
+        out += [e for e in data.get("findings", []) if e.get("property") == pid and e.get("status") == "open"]
+    return out
 
 
 # ------------------------------------------------------------------ sharded execution
